@@ -135,10 +135,25 @@ pub fn run_gen(args: &Args, mut out: Out) {
         }
         let len = *sizes.choose(&mut r).unwrap();
         let bytes: Vec<u8> = (0..len).map(|i| ((i * 7 + sid as usize) % 256) as u8).collect();
-        let (bkind, known, blen, bdigest) = match r.gen_range(0..5) {
+        let (bkind, known, blen, bdigest) = match r.gen_range(0..7) {
             0 => {
                 resp = resp.with_body(bytes.clone());
                 ("Vec", true, len, digest(&bytes))
+            }
+            // text bodies through the String and &'static str conversions: the length announced is the length in BYTES
+            5 | 6 => {
+                let mut text = String::new();
+                while text.len() < len.min(70_000) {
+                    text.push(*['a', 'é', '€', '\u{1F600}', '\n', '"'].choose(&mut r).unwrap());
+                }
+                let tb = text.as_bytes().to_vec();
+                if r.gen_bool(0.5) {
+                    resp = resp.with_body(text);
+                } else {
+                    let st: &'static str = Box::leak(text.into_boxed_str());
+                    resp = resp.with_body(st);
+                }
+                ("Text", true, tb.len(), digest(&tb))
             }
             1 => {
                 let s: &'static [u8] = Box::leak(bytes.clone().into_boxed_slice());
